@@ -108,4 +108,14 @@ PROPS["C16"] = {
     "assumptions": [],
 }
 
+PROPS["C06"] = {
+    "modules": ["Foundation.Proofs.C06"],
+    "level_text": "Machine-checked: (primitive layer) any sequence of balance Add/Sub/Move with any amounts keeps every balance >= 0; an unfunded or negative operation errors and leaves the state as it was; a successful one changes exactly the balances it names by exactly the amount (incl. self-moves). (token layer) for every sequence of emit, burn, moves (transfer, fee, lock, forced transfer, purchase), escrow-in (swap begin) and escrow-out (cancel / robot completion into the given-out counter): spendable + locked + given + escrow = total emission, only emit/burn change it, nothing is negative — sums over ghost logs, unbounded histories and amounts. Tied to the code by histories through Invoke with amounts around the balance, 2^64+1 and 2^256, dumping all balances, given, open-swap escrow and total_emission after every step; the judge recomputes the conservation sum from the implementation's dump.",
+    "level_note": "Trusted: Lean kernel + 3 axioms; big.Int = unbounded Int; the enclosing transaction is all-or-nothing (C04); business operations are mapped to moves/escrow steps by the driver (plain token only; grouped tokens and the destination-side steps are under C08-C10).",
+    "trusted_base": ["core/balance/operations.go modelled by Foundation.Balance.add/sub/move", "business operations of the own token as TOp sequences (driver mapping, checked differentially)"],
+    "hypotheses": [],
+    "not_modelled": ["grouped (industrial) tokens and allowed balances in the conservation statement", "multi-swap (C09)"],
+    "assumptions": [],
+}
+
 NOT_APPLICABLE = {}
